@@ -1,7 +1,21 @@
 # C14 spec (see tools/props.py)
 SPEC = {
-        "ready": False,
+        "ready": True,
         "sources": ["c14.cpp", "c14_f.cpp", "c14_d.cpp"],
         "lib": [],
+        "technique": "exhaustive enumeration of (box, origin, direction) over integer lattices and over a power-of-two boundary alphabet against an exact slab test "
+                     "(integers / cross-multiplied fractions, exact in long double on the power-of-two alphabet)",
+        "level_text": "intersects(box,ray), intersects(box,ray,ip) and findEntryAndExitPoints are run on every box with (min,max) in {0..3} per axis (flat and inverted included), "
+                      "every origin in {-1..4}^3 and every non-zero unnormalised direction in {-2..2}^3 (thorough: {0..4}, {-2..6}^3, {-3..3}^3), float and double, and on the extreme "
+                      "alphabet of direction components {0, +-denorm_min, +-min, +-2^-100, +-1, +-2^100, +-max}; the truth value must equal the exact slab test, reported points must be in "
+                      "the box, on its surface (or equal to the origin when it is inside) and within 2*eps*M of the exact point.",
+        "level_note": "Bounded scope: small-integer and power-of-two coordinates only. Cases of the extreme alphabet in which a slab parameter t underflows (0 < |t| < min) are outside the "
+                      "checked domain and are counted; cases in which a parameter exceeds the largest finite value are checked and reported under their own '.some-t-overflows' / "
+                      "'.every-t-overflows' sites.",
         "deadline": {"quick": 200, "thorough": 850},
+        "rule": "exhaustive product of the box, origin and direction alphabets, 3 entry points, float and double; non-trivial = by the exact oracle on the input: box inverted or flat, "
+                "origin inside, hit from outside, box behind the origin (line hits, ray misses), single contact point (grazing edge/corner/face), a zero direction component, "
+                "a slab parameter beyond the largest finite value on some / on every axis ('miss.generic' excluded)",
+        "assumptions": ["zero direction vectors are outside the property's domain and are excluded",
+                        "long double has a 64-bit significand (x86-64): the power-of-two alphabet's cross products are exact"],
     }
